@@ -1015,38 +1015,59 @@ mod kani_c06 {
         n
     }
 
-    /// Round trip over every frame shape the format permits, into a ZERO-FILLED buffer (emit ORs the flag bits into the
-    /// frame control field, see c06_ieee802154_emit_deterministic).
-    /// FAILS: shapes without a destination PAN id (and 2015 Extended/Extended without compression) are laid out wrongly by emit.
+    /// Round trip over every frame shape the format permits.
+    /// KNOWN FINDING W5: shapes without a destination PAN id (and 2015 Extended/Extended without compression) are laid out wrongly
+    /// by emit; the twin that excludes them is c06_ieee802154_emit_parse_dstpan.
     #[cfg(feature = "medium-ieee802154")]
     #[kani::proof] #[kani::unwind(10)]
     fn c06_ieee802154_emit_parse() {
         let repr = any_ieee802154();
         kani::assume(ieee802154_valid(&repr)); // tag: proviso
-        let mut a = [0u8; 24];
+        let mut a: [u8; 24] = kani::any();
         kani::cover!(repr.dst_pan_id.is_none() && repr.src_pan_id.is_some(), "frame with a source PAN id only reachable");
         ieee802154_rt(&repr, &mut a);
     }
 
-    /// Round trip restricted to the shapes emit supports (destination PAN id and address present), zero-filled buffer.
+    /// Round trip restricted to the shapes emit supports (destination PAN id and address present).
     #[cfg(feature = "medium-ieee802154")]
     #[kani::proof] #[kani::unwind(10)]
     fn c06_ieee802154_emit_parse_dstpan() {
         let repr = any_ieee802154();
         kani::assume(ieee802154_valid(&repr) && ieee802154_emit_supported(&repr)); // tag: proviso
-        let mut a = [0u8; 24];
+        let mut a: [u8; 24] = kani::any();
         kani::cover!(repr.src_pan_id.is_some() && matches!(repr.src_addr, Some(Ieee802154Address::Extended(_))) && matches!(repr.dst_addr, Some(Ieee802154Address::Extended(_))), "frame with both PAN ids and extended addresses reachable");
         kani::cover!(repr.frame_type == Ieee802154FrameType::Acknowledgement && repr.dst_addr.is_none(), "frame type without addressing fields reachable");
         ieee802154_rt(&repr, &mut a);
     }
 
-    /// Prior-content independence on the supported shapes. FAILS: the set_* of the frame control flags only OR bits in, the
-    /// reserved / sequence-number-suppression / IE-present bits and (for frame types without one) the sequence number are not written.
+    /// Prior-content independence on the supported shapes (findings W4/W6 fixed: the frame control setters only ORed bits in, the
+    /// reserved bits and an absent sequence number were left unwritten). KNOWN FINDING W5 remains for frames without addressing
+    /// fields; twin: c06_ieee802154_emit_deterministic_xk.
     #[cfg(feature = "medium-ieee802154")]
     #[kani::proof] #[kani::unwind(10)]
     fn c06_ieee802154_emit_deterministic() {
         let repr = any_ieee802154();
         kani::assume(ieee802154_valid(&repr) && ieee802154_emit_supported(&repr)); // tag: proviso
+        let mut a: [u8; 24] = kani::any();
+        let mut b: [u8; 24] = kani::any();
+        let n = repr.buffer_len();
+        assert!(n <= 23);
+        repr.emit(&mut Ieee802154Frame::new_unchecked(&mut a[..n]));
+        repr.emit(&mut Ieee802154Frame::new_unchecked(&mut b[..n]));
+        kani::cover!(repr.frame_type == Ieee802154FrameType::Data, "data frame reachable");
+        same_bytes(&a[..n], &b[..n]);
+    }
+
+    /// the same, excluding the discriminator of known finding W5 (frames without addressing fields: buffer_len() still counts a
+    /// destination PAN id that emit does not write)
+    #[cfg(feature = "medium-ieee802154")]
+    #[kani::proof] #[kani::unwind(10)]
+    fn c06_ieee802154_emit_deterministic_xk() {
+        let repr = any_ieee802154();
+        kani::assume(ieee802154_valid(&repr) && ieee802154_emit_supported(&repr)); // tag: proviso
+        kani::assume(ieee802154_has_addressing(&repr)); // tag: known-finding-W5
+        // ... and frames without a source address but with the compression bit clear (buffer_len() counts a source PAN id then)
+        kani::assume(!matches!(repr.src_addr, Some(Ieee802154Address::Absent)) || repr.pan_id_compression); // tag: known-finding-W5
         let mut a: [u8; 24] = kani::any();
         let mut b: [u8; 24] = kani::any();
         let n = repr.buffer_len();
@@ -1075,13 +1096,13 @@ mod kani_c06 {
                     return;
                 }
                 if only_supported && !ieee802154_emit_supported(&r) { return; }
-                let mut a = [0u8; 24];
+                let mut a: [u8; 24] = kani::any();
                 ieee802154_rt(&r, &mut a);
             }
         }
     }
 
-    /// FAILS for the shapes emit does not support (see c06_ieee802154_emit_parse)
+    /// KNOWN FINDING W5 (see c06_ieee802154_emit_parse); twin: c06_ieee802154_parse_emit_parse_dstpan
     #[cfg(feature = "medium-ieee802154")]
     #[kani::proof] #[kani::unwind(10)]
     fn c06_ieee802154_parse_emit_parse() { ieee802154_pep(false); }
@@ -1165,19 +1186,26 @@ mod kani_c06 {
     #[cfg(all(feature = "proto-sixlowpan", feature = "medium-ieee802154"))]
     #[kani::proof] #[kani::unwind(8)]
     fn c06_sixlowpan_exthdr_emit_parse() {
+        // the Repr describes the header only (buffer_len() = 2 or 3); the `length` octets of extension header payload follow it and
+        // are written by the caller, so the buffer handed to new_checked is header + payload (finding W8: check_len covers both)
         let repr = any_sixlowpan_exthdr();
-        let mut a: [u8; 4] = kani::any();
-        let mut b: [u8; 4] = kani::any();
+        let mut a: [u8; 3 + 255] = kani::any();
+        let mut b: [u8; 3 + 255] = kani::any();
         let n = repr.buffer_len();
         assert!(n <= 3);
-        repr.emit(&mut SixlowpanExtHeaderPacket::new_unchecked(&mut a[..n]));
-        repr.emit(&mut SixlowpanExtHeaderPacket::new_unchecked(&mut b[..n]));
-        let p = SixlowpanExtHeaderPacket::new_checked(&a[..n]);
+        let total = n + repr.length as usize;
+        repr.emit(&mut SixlowpanExtHeaderPacket::new_unchecked(&mut a[..total]));
+        repr.emit(&mut SixlowpanExtHeaderPacket::new_unchecked(&mut b[..total]));
+        let p = SixlowpanExtHeaderPacket::new_checked(&a[..total]);
         assert!(p.is_ok(), "C06.sixlowpan_exthdr: emitted header passes new_checked");
-        let r = SixlowpanExtHeaderRepr::parse(&p.unwrap());
-        kani::cover!(r.is_ok() && repr.ext_header_id == SixlowpanExtHeaderId::Reserved && n == 3, "reserved EID with in-line next header round trip reachable");
+        let p = p.unwrap();
+        assert!(p.payload().len() == repr.length as usize, "C06.sixlowpan_exthdr: payload view has the announced length");
+        let r = SixlowpanExtHeaderRepr::parse(&p);
+        kani::cover!(r.is_ok() && repr.ext_header_id == SixlowpanExtHeaderId::Reserved && n == 3 && repr.length == 255, "reserved EID with in-line next header and maximal payload reachable");
         assert!(r == Ok(repr), "C06.sixlowpan_exthdr: parse(emit(repr)) == repr");
         same_bytes(&a[..n], &b[..n]);
+        // a buffer that lacks part of the announced payload is rejected
+        if repr.length > 0 { assert!(SixlowpanExtHeaderPacket::new_checked(&a[..total - 1]).is_err(), "C06.sixlowpan_exthdr: truncated payload is rejected"); }
     }
 
     #[cfg(all(feature = "proto-sixlowpan", feature = "medium-ieee802154"))]
@@ -1190,11 +1218,13 @@ mod kani_c06 {
         if let Ok(p) = SixlowpanExtHeaderPacket::new_checked(&buf[..n]) {
             if let Ok(r) = SixlowpanExtHeaderRepr::parse(&p) {
                 kani::cover!(r.next_header == SixlowpanNextHeader::Compressed, "extension header with compressed next header parsed");
-                let mut a: [u8; 4] = kani::any();
+                kani::cover!(r.length > 0, "extension header with payload parsed");
+                let mut a: [u8; L] = kani::any();
                 let m = r.buffer_len();
-                assert!(m <= 3);
-                r.emit(&mut SixlowpanExtHeaderPacket::new_unchecked(&mut a[..m]));
-                let p2 = SixlowpanExtHeaderPacket::new_checked(&a[..m]);
+                assert!(m <= 3 && m + r.length as usize <= n, "C06.sixlowpan_exthdr: a checked packet holds header and announced payload");
+                let total = m + r.length as usize;
+                r.emit(&mut SixlowpanExtHeaderPacket::new_unchecked(&mut a[..total]));
+                let p2 = SixlowpanExtHeaderPacket::new_checked(&a[..total]);
                 assert!(p2.is_ok());
                 assert!(SixlowpanExtHeaderRepr::parse(&p2.unwrap()) == Ok(r), "C06.sixlowpan_exthdr: parse(emit(parse(bytes))) == parse(bytes)");
             }
@@ -2902,8 +2932,8 @@ mod kani_c06 {
         let repr = MldRepr::ReportRecordReprs(&recs[..k]);
         let mut a: [u8; N] = kani::any();
         let mut b: [u8; N] = kani::any();
-        let n = repr.buffer_len() + 20 * k;
-        assert!(repr.buffer_len() == 8 && recs[0].buffer_len() == 20);
+        let n = repr.buffer_len();
+        assert!(n == 8 + 20 * k && recs[0].buffer_len() == 20, "C06.mld: the declared length covers the records");
         repr.emit(&mut Icmpv6Packet::new_unchecked(&mut a[..n]));
         repr.emit(&mut Icmpv6Packet::new_unchecked(&mut b[..n]));
         let p = Icmpv6Packet::new_checked(&a[..n]);
@@ -2940,9 +2970,8 @@ mod kani_c06 {
     #[kani::proof] #[kani::unwind(4)]
     fn c06_mld_records_emit_parse_2() { mld_records_rt(2); }
 
-    /// FINDING: MldRepr::ReportRecordReprs(records).buffer_len() is 8 whatever the number of records, but emit writes
-    /// 8 + 20 * records.len() octets: emission into a buffer of the declared length panics (index out of bounds) as soon as
-    /// there is one record.
+    /// emission into a buffer of the declared length never panics (finding W16, fixed: buffer_len() used to be 8 whatever the
+    /// number of records while emit writes 8 + 20 * records.len() octets).
     #[cfg(feature = "proto-ipv6")]
     #[kani::proof] #[kani::unwind(4)]
     fn c06_mld_records_emit_declared_len() {
